@@ -30,6 +30,8 @@ ASSUMPTIONS = [
     "failed-realization flags and filter weights are taken from the reported results (decided by C03/C04/C05)",
     "tolerance |g - g_exact| <= 1e-6 * (1 + max|slope|) per entry; fixed entries exactly 0.0",
     "stddev cases with sigma < 1e-6 are counted as trivial (derivative not defined)",
+    "difference matrices whose smallest singular value is below 1e-6 are treated as missing the conditioning bound "
+    "(perturbations of rounding-error size cannot be exact in floating point)",
     "merged mode is compared when realizations share perturbations (identical difference matrices) or have identical slopes",
 ]
 
@@ -89,7 +91,8 @@ def well_conditioned(d: np.ndarray) -> bool:
         return False
     s = np.linalg.svd(d, compute_uv=False)
     s2 = s**2
-    return bool(s2.sum() > 0 and s2.min() >= 0.011 * s2.sum())
+    # (differences of the order of the rounding error, e.g. a perturbation mirrored back onto x, carry no information)
+    return bool(s2.sum() > 0 and s2.min() >= 0.011 * s2.sum() and s.min() >= 1e-6)  # noqa: PLR2004
 
 
 def run_case(case: dict[str, Any]) -> dict[str, Any]:  # noqa: C901, PLR0912, PLR0915
